@@ -15,15 +15,15 @@ def Res.shift (k : Nat) : Res ε σ → Res ε σ
   | .fail e => .fail e
   | .ok i s c => .ok i s (k + c)
 
+def PRes.shift (k : Nat) : PRes ε σ → PRes ε σ
+  | .fail e => .fail e
+  | .ok st s c => .ok st s (k + c)
+
 structure Sys (ε σ : Type) where
   step : σ → Bytes → Res ε σ
   /-- enough fuel for the phase loop, from a state and the length of the remaining input -/
   μ : σ → Nat → Nat
   oof : ε
-
-def PRes.shift (k : Nat) : PRes ε σ → PRes ε σ
-  | .fail e => .fail e
-  | .ok st s c => .ok st s (k + c)
 
 namespace Sys
 variable {ε σ : Type}
@@ -45,18 +45,20 @@ def parse (s : σ) (raw : Bytes) : PRes ε σ :=
   | some r => r
   | none => .fail M.oof
 
-structure Lawful : Prop where
-  le : ∀ {s b i s' c}, M.step s b = .ok i s' c → c ≤ b.length
-  p1 : ∀ {s b i s' c}, M.step s b = .ok i s' c → i ≠ .incomplete → ∀ d, M.step s (b ++ d) = .ok i s' c
-  p2 : ∀ {s b s' c}, M.step s b = .ok .incomplete s' c → ∀ d, M.step s (b ++ d) = (M.step s' (b.drop c ++ d)).shift c
-  p3 : ∀ {s b e}, M.step s b = .fail e → ∀ d, ∃ e', M.step s (b ++ d) = .fail e'
+/-- the laws, relative to a state invariant `Inv` that `step` preserves -/
+structure Lawful (Inv : σ → Prop) : Prop where
+  inv : ∀ {s b i s' c}, Inv s → M.step s b = .ok i s' c → Inv s'
+  le : ∀ {s b i s' c}, Inv s → M.step s b = .ok i s' c → c ≤ b.length
+  p1 : ∀ {s b i s' c}, Inv s → M.step s b = .ok i s' c → i ≠ .incomplete → ∀ d, M.step s (b ++ d) = .ok i s' c
+  p2 : ∀ {s b s' c}, Inv s → M.step s b = .ok .incomplete s' c → ∀ d, M.step s (b ++ d) = (M.step s' (b.drop c ++ d)).shift c
+  p3 : ∀ {s b e}, Inv s → M.step s b = .fail e → ∀ d, ∃ e', M.step s (b ++ d) = .fail e'
   pos : ∀ s n, 0 < M.μ s n
-  dec : ∀ {s b s' c}, M.step s b = .ok .completePart s' c → M.μ s' (b.length - c) < M.μ s b.length
+  dec : ∀ {s b s' c}, Inv s → M.step s b = .ok .completePart s' c → M.μ s' (b.length - c) < M.μ s b.length
   mono : ∀ s {n m}, n ≤ m → M.μ s n ≤ M.μ s m
 
-variable {M}
+variable {M} {Inv : σ → Prop}
 
-theorem loop_fuel_irrel (L : M.Lawful) {f1 f2 : Nat} {s : σ} {rem : Bytes} {acc : Nat}
+theorem loop_fuel_irrel (L : M.Lawful Inv) {f1 f2 : Nat} {s : σ} {rem : Bytes} {acc : Nat} (hI : Inv s)
     (h1 : M.μ s rem.length ≤ f1) (h2 : M.μ s rem.length ≤ f2) :
     M.loop f1 s rem acc = M.loop f2 s rem acc := by
   induction f1 generalizing f2 s rem acc with
@@ -71,13 +73,13 @@ theorem loop_fuel_irrel (L : M.Lawful) {f1 f2 : Nat} {s : σ} {rem : Bytes} {acc
       | ok i s' c =>
         cases i with
         | completePart =>
-          have hd := L.dec hs
+          have hd := L.dec hI hs
           simp only
-          apply ih <;> simp only [List.length_drop] <;> omega
+          apply ih (L.inv hI hs) <;> simp only [List.length_drop] <;> omega
         | completeWhole => rfl
         | incomplete => rfl
 
-theorem loop_isSome (L : M.Lawful) {f : Nat} {s : σ} {rem : Bytes} {acc : Nat}
+theorem loop_isSome (L : M.Lawful Inv) {f : Nat} {s : σ} {rem : Bytes} {acc : Nat} (hI : Inv s)
     (h : M.μ s rem.length ≤ f) : (M.loop f s rem acc).isSome := by
   induction f generalizing s rem acc with
   | zero => have := L.pos s rem.length; omega
@@ -88,9 +90,9 @@ theorem loop_isSome (L : M.Lawful) {f : Nat} {s : σ} {rem : Bytes} {acc : Nat}
     | ok i s' c =>
       cases i with
       | completePart =>
-        have hd := L.dec hs
+        have hd := L.dec hI hs
         simp only
-        apply ih; simp only [List.length_drop]; omega
+        apply ih (L.inv hI hs); simp only [List.length_drop]; omega
       | completeWhole => rfl
       | incomplete => rfl
 
@@ -107,8 +109,9 @@ theorem loop_fuel_mono {f : Nat} {s : σ} {rem : Bytes} {acc : Nat} {r : PRes ε
     · exact h
     · exact h
 
-theorem loop_consumed (L : M.Lawful) {f : Nat} {s s' : σ} {rem : Bytes} {acc c : Nat} {st : Status}
-    (h : M.loop f s rem acc = some (.ok st s' c)) : acc ≤ c ∧ c ≤ acc + rem.length := by
+theorem loop_consumed (L : M.Lawful Inv) {f : Nat} {s s' : σ} {rem : Bytes} {acc c : Nat} {st : Status}
+    (hI : Inv s) (h : M.loop f s rem acc = some (.ok st s' c)) :
+    acc ≤ c ∧ c ≤ acc + rem.length ∧ Inv s' := by
   induction f generalizing s rem acc with
   | zero => simp [loop] at h
   | succ f ih =>
@@ -116,19 +119,21 @@ theorem loop_consumed (L : M.Lawful) {f : Nat} {s s' : σ} {rem : Bytes} {acc c 
     split at h
     · simp at h
     · rename_i s1 c1 hs
-      have := L.le hs
-      have := ih h
-      simp at this; omega
+      have := L.le hI hs
+      have := ih (L.inv hI hs) h
+      simp at this; exact ⟨by omega, by omega, this.2.2⟩
     · rename_i s1 c1 hs
-      have := L.le hs
-      simp at h; omega
+      have := L.le hI hs
+      have hi := L.inv hI hs
+      simp at h; obtain ⟨_, rfl, rfl⟩ := h; exact ⟨by omega, by omega, hi⟩
     · rename_i s1 c1 hs
-      have := L.le hs
-      simp at h; omega
+      have := L.le hI hs
+      have hi := L.inv hI hs
+      simp at h; obtain ⟨_, rfl, rfl⟩ := h; exact ⟨by omega, by omega, hi⟩
 
 /-- L1: completion is stable under extension (same fuel) -/
-theorem loop_append_complete (L : M.Lawful) {f : Nat} {s s' : σ} {rem : Bytes} {acc c : Nat}
-    (h : M.loop f s rem acc = some (.ok .complete s' c)) (d : Bytes) :
+theorem loop_append_complete (L : M.Lawful Inv) {f : Nat} {s s' : σ} {rem : Bytes} {acc c : Nat}
+    (hI : Inv s) (h : M.loop f s rem acc = some (.ok .complete s' c)) (d : Bytes) :
     M.loop f s (rem ++ d) acc = some (.ok .complete s' c) := by
   induction f generalizing s rem acc with
   | zero => simp [loop] at h
@@ -137,21 +142,21 @@ theorem loop_append_complete (L : M.Lawful) {f : Nat} {s s' : σ} {rem : Bytes} 
     cases hs : M.step s rem with
     | fail e => simp [hs] at h
     | ok i s1 c1 =>
-      have hle := L.le hs
+      have hle := L.le hI hs
       cases i with
       | completePart =>
         simp only [hs] at h
-        rw [L.p1 hs (by simp) d]; simp only
+        rw [L.p1 hI hs (by simp) d]; simp only
         rw [List.drop_append_of_le_length hle]
-        exact ih h
+        exact ih (L.inv hI hs) h
       | completeWhole =>
         simp only [hs] at h
-        rw [L.p1 hs (by simp) d]; exact h
+        rw [L.p1 hI hs (by simp) d]; exact h
       | incomplete => simp [hs] at h
 
 /-- L3: failure is stable under extension (same fuel) -/
-theorem loop_append_fail (L : M.Lawful) {f : Nat} {s : σ} {rem : Bytes} {acc : Nat} {e : ε}
-    (h : M.loop f s rem acc = some (.fail e)) (d : Bytes) :
+theorem loop_append_fail (L : M.Lawful Inv) {f : Nat} {s : σ} {rem : Bytes} {acc : Nat} {e : ε}
+    (hI : Inv s) (h : M.loop f s rem acc = some (.fail e)) (d : Bytes) :
     ∃ e', M.loop f s (rem ++ d) acc = some (.fail e') := by
   induction f generalizing s rem acc with
   | zero => simp [loop] at h
@@ -159,22 +164,22 @@ theorem loop_append_fail (L : M.Lawful) {f : Nat} {s : σ} {rem : Bytes} {acc : 
     unfold loop at h ⊢
     cases hs : M.step s rem with
     | fail e1 =>
-      obtain ⟨e', he'⟩ := L.p3 hs d
+      obtain ⟨e', he'⟩ := L.p3 hI hs d
       exact ⟨e', by rw [he']⟩
     | ok i s1 c1 =>
-      have hle := L.le hs
+      have hle := L.le hI hs
       cases i with
       | completePart =>
         simp only [hs] at h
-        rw [L.p1 hs (by simp) d]; simp only
+        rw [L.p1 hI hs (by simp) d]; simp only
         rw [List.drop_append_of_le_length hle]
-        exact ih h
+        exact ih (L.inv hI hs) h
       | completeWhole => simp [hs] at h
       | incomplete => simp [hs] at h
 
 /-- L2: an incomplete run can be resumed from the returned state -/
-theorem loop_append_incomplete (L : M.Lawful) {f : Nat} {s s' : σ} {rem : Bytes} {acc c : Nat}
-    (h : M.loop f s rem acc = some (.ok .incomplete s' c)) (d : Bytes) {f1 f2 : Nat}
+theorem loop_append_incomplete (L : M.Lawful Inv) {f : Nat} {s s' : σ} {rem : Bytes} {acc c : Nat}
+    (hI : Inv s) (h : M.loop f s rem acc = some (.ok .incomplete s' c)) (d : Bytes) {f1 f2 : Nat}
     (h1 : M.μ s (rem ++ d).length ≤ f1) (h2 : M.μ s' (rem.drop (c - acc) ++ d).length ≤ f2) :
     M.loop f1 s (rem ++ d) acc = M.loop f2 s' (rem.drop (c - acc) ++ d) c := by
   induction f generalizing s rem acc f1 with
@@ -184,13 +189,14 @@ theorem loop_append_incomplete (L : M.Lawful) {f : Nat} {s s' : σ} {rem : Bytes
     cases hs : M.step s rem with
     | fail e => simp [hs] at h
     | ok i s1 c1 =>
-      have hle := L.le hs
+      have hle := L.le hI hs
+      have hI1 := L.inv hI hs
       cases i with
       | completeWhole => simp [hs] at h
       | completePart =>
         simp only [hs] at h
-        have hc := loop_consumed L h
-        have hs' := L.p1 hs (by simp) d
+        have hc := loop_consumed L hI1 h
+        have hs' := L.p1 hI hs (by simp) d
         cases f1 with
         | zero => have := L.pos s (rem ++ d).length; omega
         | succ f1 =>
@@ -199,8 +205,8 @@ theorem loop_append_incomplete (L : M.Lawful) {f : Nat} {s s' : σ} {rem : Bytes
           rw [List.drop_append_of_le_length hle]
           have hdrop : (rem.drop c1).drop (c - (acc + c1)) = rem.drop (c - acc) := by
             rw [List.drop_drop]; congr 1; omega
-          have hd := L.dec hs'
-          have := ih h (f1 := f1)
+          have hd := L.dec hI hs'
+          have := ih hI1 h (f1 := f1)
             (by rw [← List.drop_append_of_le_length hle]; simp only [List.length_drop]; omega)
             (by rw [hdrop]; exact h2)
           rw [this, hdrop]
@@ -209,7 +215,7 @@ theorem loop_append_incomplete (L : M.Lawful) {f : Nat} {s s' : σ} {rem : Bytes
         obtain ⟨rfl, rfl⟩ := h
         have hcc : acc + c1 - acc = c1 := by omega
         rw [hcc] at h2 ⊢
-        have hp2 := L.p2 hs d
+        have hp2 := L.p2 hI hs d
         cases f1 with
         | zero => have := L.pos s (rem ++ d).length; omega
         | succ f1 =>
@@ -227,44 +233,51 @@ theorem loop_append_incomplete (L : M.Lawful) {f : Nat} {s s' : σ} {rem : Bytes
               | incomplete => simp [Res.shift]; omega
               | completePart =>
                 simp only [Res.shift]
-                have hle2 := L.le hr
-                have hdec := L.dec hr
+                have hle2 := L.le hI1 hr
+                have hdec := L.dec hI1 hr
                 have hlist : (rem ++ d).drop (c1 + c2) = (rem.drop c1 ++ d).drop c2 := by
                   rw [← List.drop_drop, List.drop_append_of_le_length hle]
                 rw [hlist, show acc + (c1 + c2) = acc + c1 + c2 by omega]
-                apply loop_fuel_irrel L
-                · -- fuel on the left: from `dec` for the step on the extended input
-                  have hs'' : M.step s (rem ++ d) = .ok .completePart s2 (c1 + c2) := by
+                apply loop_fuel_irrel L (L.inv hI1 hr)
+                · have hs'' : M.step s (rem ++ d) = .ok .completePart s2 (c1 + c2) := by
                     rw [hp2, hr]; rfl
-                  have := L.dec hs''
+                  have := L.dec hI hs''
                   rw [← hlist]; simp only [List.length_drop]; omega
                 · simp only [List.length_drop]; omega
 
 /-! ### `parse` -/
 
-theorem parse_append_complete (L : M.Lawful) {s s' : σ} {raw : Bytes} {c : Nat}
-    (h : M.parse s raw = .ok .complete s' c) (d : Bytes) :
-    M.parse s (raw ++ d) = .ok .complete s' c ∧ c ≤ raw.length := by
+theorem parse_inv (L : M.Lawful Inv) {s s' : σ} {raw : Bytes} {c : Nat} {st : Status}
+    (hI : Inv s) (h : M.parse s raw = .ok st s' c) : Inv s' ∧ c ≤ raw.length := by
+  unfold parse at h
+  cases hl : M.loop (M.μ s raw.length) s raw 0 with
+  | none => simp [hl] at h
+  | some r =>
+    simp only [hl] at h; subst h
+    have := loop_consumed L hI hl
+    exact ⟨this.2.2, by omega⟩
+
+theorem parse_append_complete (L : M.Lawful Inv) {s s' : σ} {raw : Bytes} {c : Nat}
+    (hI : Inv s) (h : M.parse s raw = .ok .complete s' c) (d : Bytes) :
+    M.parse s (raw ++ d) = .ok .complete s' c := by
   unfold parse at h ⊢
   cases hl : M.loop (M.μ s raw.length) s raw 0 with
   | none => simp [hl] at h
   | some r =>
     simp only [hl] at h; subst h
-    have hc := loop_consumed L hl
-    have h1 := loop_append_complete L hl d
+    have h1 := loop_append_complete L hI hl d
     have hm : M.μ s raw.length ≤ M.μ s (raw ++ d).length := L.mono s (by simp)
     obtain ⟨k, hk⟩ := Nat.exists_eq_add_of_le hm
     rw [hk, loop_fuel_mono h1 k]
-    exact ⟨rfl, by omega⟩
 
-theorem parse_append_fail (L : M.Lawful) {s : σ} {raw : Bytes} {e : ε}
-    (h : M.parse s raw = .fail e) (d : Bytes) : ∃ e', M.parse s (raw ++ d) = .fail e' := by
+theorem parse_append_fail (L : M.Lawful Inv) {s : σ} {raw : Bytes} {e : ε}
+    (hI : Inv s) (h : M.parse s raw = .fail e) (d : Bytes) : ∃ e', M.parse s (raw ++ d) = .fail e' := by
   unfold parse at h ⊢
   cases hl : M.loop (M.μ s raw.length) s raw 0 with
-  | none => have := loop_isSome L (Nat.le_refl (M.μ s raw.length)) (acc := 0); simp [hl] at this
+  | none => have := loop_isSome L hI (Nat.le_refl (M.μ s raw.length)) (acc := 0) (rem := raw); simp [hl] at this
   | some r =>
     simp only [hl] at h; subst h
-    obtain ⟨e', h1⟩ := loop_append_fail L hl d
+    obtain ⟨e', h1⟩ := loop_append_fail L hI hl d
     have hm : M.μ s raw.length ≤ M.μ s (raw ++ d).length := L.mono s (by simp)
     obtain ⟨k, hk⟩ := Nat.exists_eq_add_of_le hm
     exact ⟨e', by rw [hk, loop_fuel_mono h1 k]⟩
@@ -288,17 +301,15 @@ theorem loop_acc (M : Sys ε σ) {f : Nat} {s : σ} {rem : Bytes} {acc : Nat} :
       | completeWhole => simp [PRes.shift]
       | incomplete => simp [PRes.shift]
 
-theorem parse_append_incomplete (L : M.Lawful) {s s' : σ} {raw : Bytes} {c : Nat}
-    (h : M.parse s raw = .ok .incomplete s' c) (d : Bytes) :
-    c ≤ raw.length ∧ M.parse s (raw ++ d) = (M.parse s' (raw.drop c ++ d)).shift c := by
+theorem parse_append_incomplete (L : M.Lawful Inv) {s s' : σ} {raw : Bytes} {c : Nat}
+    (hI : Inv s) (h : M.parse s raw = .ok .incomplete s' c) (d : Bytes) :
+    M.parse s (raw ++ d) = (M.parse s' (raw.drop c ++ d)).shift c := by
   unfold parse at h ⊢
   cases hl : M.loop (M.μ s raw.length) s raw 0 with
   | none => simp [hl] at h
   | some r =>
     simp only [hl] at h; subst h
-    have hc := loop_consumed L hl
-    refine ⟨by omega, ?_⟩
-    have := loop_append_incomplete L hl d (f1 := M.μ s (raw ++ d).length)
+    have := loop_append_incomplete L hI hl d (f1 := M.μ s (raw ++ d).length)
       (f2 := M.μ s' (raw.drop c ++ d).length) (Nat.le_refl _) (by simp)
     simp only [Nat.sub_zero] at this
     rw [this, loop_acc]
